@@ -634,8 +634,8 @@ def _class_ok(c, W, for_ctrl):
     if c == "CONST:0":
         return True
     if for_ctrl:
-        if c in ("BUCKETS", "CONST:%s" % W):
-            return True
+        if c in ("BUCKETS", "CONST:%s" % W, "Sub(BUCKETS,CONST:%s)" % W, "SUB(BUCKETS,CONST:%s)" % W):
+            return True     # (buckets - WIDTH: the start of the last control group; the control array has buckets + WIDTH bytes)
         if c.startswith("ADD(MASKED") and c.endswith(",CONST:%s)" % W):
             return True
     return False
